@@ -51,9 +51,9 @@ def scenario(case, prefix):
     shim_threading, shim_time = th.make_shims()
     saved = (ja.threading, ja.time)
     ja.threading, ja.time = shim_threading, shim_time
-    th.instrument(ja.JobArrayer.add_job, ja.JobArrayer.get_stale_descrs, ja.JobArrayer.submit_pending_jobs,
-                  ja.JobArrayer._monitor_stale_jobs, ja.JobArrayer.start, ja.JobArrayer.stop)
     s = th.Sched(prefix, horizon=6000)
+    s.active = th.instrument(ja.JobArrayer.add_job, ja.JobArrayer.get_stale_descrs, ja.JobArrayer.submit_pending_jobs,
+                             ja.JobArrayer._monitor_stale_jobs, ja.JobArrayer.start, ja.JobArrayer.stop)
     batches, errors, added = [], [], []
     res = {}
 
